@@ -22,6 +22,7 @@ def init():
     if not flags.FLAGS.is_parsed():
         flags.FLAGS(["vmc"])
     logging.getLogger().setLevel(logging.ERROR)
+    logging.getLogger().addHandler(logging.NullHandler())
     try:
         from absl import logging as alog
 
